@@ -52,6 +52,10 @@ type faultIn struct {
 type caseIn struct {
 	Ups    int       `json:"ups"`
 	Downs  int       `json:"downs"`
+	// Backlog: before the first failure the broker pushes that many chunks into every downstream and the
+	// application reads none of them (the 1024-slot read queue is full and more keep arriving); every upstream
+	// has 30 chunks in flight whose acknowledgements arrive in one burst right before the link dies
+	Backlog int `json:"backlog,omitempty"`
 	Faults []faultIn `json:"faults"`
 }
 
@@ -108,6 +112,8 @@ type runner struct {
 	closedBefore map[int]bool
 	excused      map[int]bool // resume refused by the broker, or resume exchange cut
 	accounted    int          // wire incarnations established inside the fault windows
+	backlog      int
+	drained      map[int]bool
 }
 
 func (r *runner) ev(s ...string) { r.evs = append(r.evs, s...) }
@@ -250,6 +256,10 @@ func (r *runner) fault(f faultIn) {
 	var midcall *pending
 	switch f.Pos {
 	case "idle", "handshake":
+		if r.backlog > 0 {
+			cb.FlushHeldAcks() // the ack burst is still in the client's queues when the link dies
+			cb.NoAnswer("chunk", false)
+		}
 		cur.Link.Sever(mode)
 		r.ev("ELinkDown", "EDetect")
 	case "resume":
@@ -603,6 +613,38 @@ func (r *runner) schedule(fr *faultRec, finals map[int]int) []string {
 
 // probe uses the stream: 0 works on the current wire connection, 1 detached, 2 closed with event, 3 closed without
 func (r *runner) probe(s *strm) int {
+	code := r.probeUse(s, r.resumedOnCurrent(s))
+	return code
+}
+
+// resumedOnCurrent: a stream that was opened on an earlier wire incarnation must have sent its resume
+// request on the current one BEFORE the application touches it again (a stream that resumes only once
+// the application reads or writes was detached in the meantime).
+func (r *runner) resumedOnCurrent(s *strm) bool {
+	cb := r.cb
+	cur := cb.CurrentEstablished()
+	curGen := cb.GenOf(cur.Idx)
+	openGen, resumed := -1, false
+	for _, x := range cb.Log() {
+		if x.Label != s.label {
+			continue
+		}
+		g := cb.GenOf(x.Sess)
+		switch x.Kind {
+		case "openup", "opendown":
+			if g > openGen {
+				openGen = g
+			}
+		case "resumeup", "resumedown":
+			if g == curGen {
+				resumed = true
+			}
+		}
+	}
+	return openGen == curGen || resumed
+}
+
+func (r *runner) probeUse(s *strm, resumedBeforeUse bool) int {
 	cb := r.cb
 	cur := cb.CurrentEstablished()
 	curGen := cb.GenOf(cur.Idx)
@@ -650,17 +692,55 @@ func (r *runner) probe(s *strm) int {
 			}
 			return false
 		})
-		if ok {
+		if ok && resumedBeforeUse {
 			return 0
 		}
 		return 1
 	}
+	if r.backlog > 0 {
+		// the data queued before the outage is still readable ...
+		n := 0
+		for {
+			ch, _ := iscp.VerifDownstreamQueued(s.dn)
+			if ch == 0 || n > 3000 {
+				break
+			}
+			ctx, cancel := context.WithTimeout(context.Background(), 250*time.Millisecond)
+			_, err := s.dn.ReadDataPoints(ctx)
+			cancel()
+			if errors.Is(err, ierrors.ErrStreamClosed) {
+				return closedCode()
+			}
+			if err != nil {
+				return 1
+			}
+			n++
+		}
+		if n < 1000 {
+			return 1 // the backlog was lost
+		}
+		time.Sleep(10 * time.Millisecond)
+		for {
+			ch, _ := iscp.VerifDownstreamQueued(s.dn)
+			if ch == 0 {
+				break
+			}
+			ctx, cancel := context.WithTimeout(context.Background(), 100*time.Millisecond)
+			s.dn.ReadDataPoints(ctx)
+			cancel()
+		}
+	}
+	// ... and a NEW chunk is delivered on the current wire connection
 	r.seq++
-	cb.SendChunk(cur, s.label, r.seq)
+	want := r.seq
+	cb.SendChunk(cur, s.label, want)
 	ctx, cancel := context.WithTimeout(context.Background(), 250*time.Millisecond)
 	defer cancel()
-	_, err := s.dn.ReadDataPoints(ctx)
+	got, err := s.dn.ReadDataPoints(ctx)
 	if err == nil {
+		if got.SequenceNumber != want || !resumedBeforeUse {
+			return 1
+		}
 		return 0
 	}
 	if errors.Is(err, ierrors.ErrStreamClosed) {
@@ -745,7 +825,50 @@ func runCase(c *caseIn) (res result) {
 		}
 		r.ev(fmt.Sprintf("EStart %d %s", p.label, kind), fmt.Sprintf("EWake %d", p.label), fmt.Sprintf("EResp %d", p.label))
 	}
+	if c.Backlog > 0 && res.direct == "" {
+		r.backlog = c.Backlog
+		r.drained = map[int]bool{}
+		r.mu.Lock()
+		streams := append([]*strm(nil), r.streams...)
+		r.mu.Unlock()
+		cur := r.cb.CurrentEstablished()
+		for _, s := range streams {
+			if s.down {
+				for k := 0; k < c.Backlog; k++ {
+					r.seq++
+					r.cb.SendChunk(cur, s.label, r.seq)
+				}
+				want := c.Backlog
+				if want > 1024 {
+					want = 1024
+				}
+				s := s
+				if !broker.WaitFor(3*time.Second, func() bool { ch, _ := iscp.VerifDownstreamQueued(s.dn); return ch >= want }) {
+					res.direct = "the chunks pushed by the broker did not fill the downstream's read queue"
+				}
+			} else {
+				r.cb.NoAnswer("chunk", true)
+				for k := 0; k < 30; k++ {
+					ctx, cancel := context.WithTimeout(context.Background(), time.Second)
+					r.seq++
+					err := s.up.WriteDataPoints(ctx, &message.DataID{Name: "d", Type: "t"}, &message.DataPoint{ElapsedTime: time.Duration(r.seq), Payload: []byte{7}})
+					if err == nil {
+						err = s.up.Flush(ctx)
+					}
+					cancel()
+					if err != nil {
+						res.direct = "write/flush on a healthy upstream failed: " + err.Error()
+						break
+					}
+				}
+			}
+		}
+		time.Sleep(20 * time.Millisecond) // the last chunks have reached the stream's loops
+	}
 	for _, f := range c.Faults {
+		if res.direct != "" {
+			break
+		}
 		r.fault(f)
 		if r.direct != "" {
 			res.direct = r.direct
@@ -995,6 +1118,16 @@ func main() {
 				}
 			}
 		}
+		// backlog at the outage: full read queues (1100 / 2200 unread chunks per downstream), ack burst on the upstreams
+		for _, bl := range []int{1100, 2200} {
+			for _, silent := range []bool{false, true} {
+				for _, sh := range [][2]int{{0, 1}, {1, 1}, {2, 2}} {
+					f := faultIn{Pos: "idle", Silent: silent, Slow: bl == 2200}
+					jobs = append(jobs, job{&caseIn{Ups: sh[0], Downs: sh[1], Backlog: bl, Faults: []faultIn{f}}, "backlog-at-outage"})
+				}
+			}
+		}
+		jobs = append(jobs, job{&caseIn{Ups: 1, Downs: 1, Backlog: 1100, Faults: []faultIn{{Pos: "idle"}, {Pos: "idle", Silent: true}}}, "backlog-at-outage"})
 		for i := 0; i < nrand; i++ {
 			jobs = append(jobs, job{genRandom(r.Fork()), "random"})
 		}
